@@ -173,6 +173,7 @@ func (engine *Engine) RewriteLog() error {
 		return fmt.Errorf("rewrite log error: create preamble error: %+v", err)
 	}
 
+	engine.appendStore.SetGeneration(engine.preambleStore.Generation())
 	verifPoint("rewrite.after_preamble")
 	// Truncate the AOF file.
 	if err := engine.appendStore.Truncate(); err != nil {
@@ -187,6 +188,7 @@ func (engine *Engine) Restore() error {
 	if err := engine.preambleStore.Restore(); err != nil {
 		return fmt.Errorf("restore aof error: restore preamble error: %+v", err)
 	}
+	engine.appendStore.SetGeneration(engine.preambleStore.Generation())
 	if err := engine.appendStore.Restore(); err != nil {
 		return fmt.Errorf("restore aof error: restore aof error: %+v", err)
 	}
